@@ -6,6 +6,6 @@ CONSTANTS
   WDigest = 1
   Mode = "reduced"
   Size = "full"
-  Kinds = {"P","T","V","C"}
+  Kinds = {"P","V","T"}
 INVARIANTS InvSingleField InvGivenNetwork
 CHECK_DEADLOCK FALSE
